@@ -539,6 +539,18 @@ class Visitor : public RecursiveASTVisitor<Visitor> {
         Funcs.push_back(Em.emitFunction(FD));
         return true;
     }
+    // a lambda's body is its call operator: emitted like a function (marked), so that a computation factored into a
+    // local lambda can be put back where it is called (N-LAMBDA / N-INLINE)
+    bool VisitLambdaExpr(LambdaExpr* LE) {
+        CXXMethodDecl* M = LE->getCallOperator();
+        if (!M || !M->doesThisDeclarationHaveABody() || M->isDependentContext()) return true;
+        if (!Em.underRoot(Em.fileOf(M->getLocation()))) return true;
+        if (!seen.insert(M).second) return true;
+        json::Value V = Em.emitFunction(M);
+        if (auto* O = V.getAsObject()) (*O)["lambda"] = true;
+        Funcs.push_back(std::move(V));
+        return true;
+    }
     bool VisitRecordDecl(RecordDecl* R) {
         if (!R->isCompleteDefinition()) return true;
         if (R->isAnonymousStructOrUnion()) return true;
